@@ -278,9 +278,18 @@ func addContentHashesToEvent(eventJSON []byte) ([]byte, error) {
 // checkUniqueTopLevelKeys refuses an event whose top-level object names a member more than
 // once (the names compared as strings, i.e. after unescaping).
 func checkUniqueTopLevelKeys(eventJSON []byte) error {
+	if dup := duplicateTopLevelKey(eventJSON); dup != nil {
+		return fmt.Errorf("gomatrixserverlib: event has more than one top-level %q key", *dup)
+	}
+	return nil
+}
+
+// duplicateTopLevelKey returns the first name that the top-level object names more than
+// once (the names compared as strings, i.e. after unescaping), or nil if there is none.
+func duplicateTopLevelKey(objectJSON []byte) *string {
 	seen := make(map[string]struct{}, 16)
 	var dup *string
-	gjson.ParseBytes(eventJSON).ForEach(func(key, _ gjson.Result) bool {
+	gjson.ParseBytes(objectJSON).ForEach(func(key, _ gjson.Result) bool {
 		name := key.String()
 		if _, ok := seen[name]; ok {
 			dup = &name
@@ -289,10 +298,7 @@ func checkUniqueTopLevelKeys(eventJSON []byte) error {
 		seen[name] = struct{}{}
 		return true
 	})
-	if dup != nil {
-		return fmt.Errorf("gomatrixserverlib: event has more than one top-level %q key", *dup)
-	}
-	return nil
+	return dup
 }
 
 // checkEventContentHash checks if the unredacted content of the event matches the SHA-256 hash under the "hashes" key.
